@@ -1321,21 +1321,35 @@ where
     }
 
     pub(crate) async fn fsyncdata(&self) -> IOResult<()> {
-        if self.fsync_in_progress.compare_exchange(false, true, Ordering::AcqRel, Ordering::Acquire).is_err() {
-            return Ok(())
-        }
+        loop {
+            if self.fsync_in_progress.compare_exchange(false, true, Ordering::AcqRel, Ordering::Acquire).is_err() {
+                return Ok(())
+            }
 
-        let _flag = ResetableFlag { flag: &self.fsync_in_progress };
+            {
+                let _flag = ResetableFlag { flag: &self.fsync_in_progress };
 
-        let safe = self.safe.read().await;
-        if let Some(ablob) = &safe.active_blob {
-            let ablob = ablob.read().await;
-            if !self.too_many_dirty_bytes(ablob.file_dirty_bytes()) {
+                let safe = self.safe.read().await;
+                let over_limit = match &safe.active_blob {
+                    Some(ablob) => self.too_many_dirty_bytes(ablob.read().await.file_dirty_bytes()),
+                    None => true,
+                };
+                if over_limit {
+                    safe.fsyncdata().await?;
+                }
+            }
+
+            // Writes acknowledged while the flag was set did not request a sync (see `should_try_fsync`):
+            // now that the flag is released, look again on their behalf
+            let safe = self.safe.read().await;
+            let over_limit = match &safe.active_blob {
+                Some(ablob) => self.too_many_dirty_bytes(ablob.read().await.file_dirty_bytes()),
+                None => false,
+            };
+            if !over_limit {
                 return Ok(());
             }
         }
-
-        safe.fsyncdata().await
     }
 
     /// Dumps indexes on old blobs. This method is slow, so it is better to run it in background
